@@ -1,13 +1,13 @@
 SPECIFICATION SpecExh
 CONSTANTS
   P = 3
-  DstLists <- DLAll
+  DstLists <- DLDup
   Dsts <- Dsts12
   IAs <- IA1
   MaxN = 1
   Delays <- D04
-  Horizon = 10
-  MaxUpd = 4
+  Horizon = 9
+  MaxUpd = 3
   KeepOnFail = FALSE
   Dedup = FALSE
   GenLen = 0
